@@ -554,7 +554,7 @@ def check (c):
                 if v ['key'] != observe.IMP_KEY:
                     v ['key'] = 'exact-kernel-on-short-neighbour'
     if viol and spec.get ('fuzzy') and spec.get ('exact_ends') and all (v ['key'] != 'current-support' for v in viol) \
-       and all (v.get ('measured', np.inf) <= 1000 * v.get ('allowed', 0) for v in viol if v ['key'] != observe.IMP_KEY):
+       and all (v.get ('measured', np.inf) <= (1e4 if str (v ['key']).startswith ('near') else 1000) * v.get ('allowed', 0) for v in viol if v ['key'] != observe.IMP_KEY):
         # known finding: wire ends that meet only within the matching tolerance (every wire writes the junction point
         # a little differently). For thick wires (radius above 1e-4 wavelengths, exact kernel) the result then depends
         # on the direction of the wires at the level of 1e-3 .. 2e-1 of the largest current (thorough tier: 0.23 at condition
